@@ -440,7 +440,7 @@ def c02(tier, seed):
         if not res["violations"]:
             raise ToolError(f"model violates {r.violated} under RA but the counterexample does not reproduce on the real code: {res['drifts'][:1]}")
     else:
-        run.replay(bra, True, "RA cover", limit=1500 if tier == "quick" else None)
+        run.replay(bra, True, "RA cover", limit=12000 if tier == "quick" else None)
         if tier == "thorough":
             r2 = mc(rep, "c02_ra2", cf["ra2"], wprog, rprog, ["NoTorn", "NoTornCache", "Monotone"], workers=10, timeout=2400)
             if r2.violated:
